@@ -58,6 +58,7 @@ class Driver:
         self.expanded = []
         self.split_inside_frame = 0
         self.eof_reads = 0
+        self.announced_sync = None
         self.last_boundary = 0
         self.chunk_inside_utf8 = 0
         self.pipelined_pairs = 0
@@ -163,6 +164,9 @@ class Driver:
         if method == "exit" and "id" not in m:
             self.exit_sent = True
             self.exit_op = k
+        if method == "initialize":
+            # the server reads the disk now: this is what it has been told about closed files
+            self.told = dict(self.world.files)
         p = m.get("params")
         if not isinstance(p, dict):
             return
@@ -174,6 +178,12 @@ class Driver:
         except Exception:
             return
         path = os.path.normpath(path)
+        if method in ("textDocument/didOpen", "textDocument/didSave", "textDocument/didClose"):
+            # the server re-reads the file on these notifications
+            if path in self.world.files:
+                self.told[path] = self.world.files[path]
+            elif method == "textDocument/didClose":
+                self.told.pop(path, None)
         if method == "textDocument/didOpen":
             if path in self.world.files:
                 lines = model.lines_from_disk(self.world.files[path])
@@ -187,6 +197,10 @@ class Driver:
             changes = p.get("contentChanges")
             if not isinstance(changes, list):
                 return
+            if self.sched.get("strict_edits", True) and self.announced_sync == 1 and any(
+                    isinstance(c, dict) and c.get("range") is not None for c in changes):
+                # a conforming client obeys the sync kind the server announced
+                raise Invalid(f"op {k}: ranged change sent to a server that announced full sync")
             if self.sched.get("sync_kind", 1) == 1:
                 changes = changes[:1]
             try:
@@ -211,6 +225,9 @@ class Driver:
             self.nwrites += 1
             for f in self.reader.feed(b):
                 self.out.append({"op": k, "f": sim.canon(f)})
+                r = f.get("result")
+                if isinstance(r, dict) and isinstance(r.get("capabilities"), dict):
+                    self.announced_sync = r["capabilities"].get("textDocumentSync")
         for h in self.idle_hooks:
             h(self)
 
